@@ -202,6 +202,8 @@ def run(prop, argv):
         _t1 = _t.time()
         events, verdicts, hazards = corelib.judge(rep, wd, out, plan["invariants"], prop)
         rep.cov["phase_s"]["judge"] = round(_t.time() - _t1, 1)
+        if prop == "C01" and not replay_path:
+            corelib.environment_conformance(rep, wd, seed, files=3 if tier == "quick" else 12)
         if prop in ("C01", "C04") and not replay_path:
             _t2 = _t.time()
             corelib.conformance(rep, wd, out, prop)
